@@ -547,6 +547,29 @@ Proof.
   destruct (Z.compare_spec za zb); cbn; repeat split; intros; try discriminate; try lia; reflexivity.
 Qed.
 
+(* (a') float64 values that are not NaN: ordered by fcmp (= SFcompare); no law needed *)
+Definition D_flt (v : json) : Prop := exists f, v = JNum (NFlt f) /\ notnan f.
+
+Lemma flt_comparable a b c :
+  fcmp a b = Some c -> item_cmp (JNum (NFlt a)) (JNum (NFlt b)) = Some (cmp_of_comparison c).
+Proof. intros H. cbn. rewrite (compareNumbersF_spec _ _ _ H). reflexivity. Qed.
+
+Theorem class_flt : OrdClass D_flt.
+Proof.
+  split.
+  - intros a b c (fa & -> & Na) (fb & -> & Nb) H.
+    destruct (fcmp_total fa fb Na Nb) as [k Hk]. rewrite (flt_comparable _ _ _ Hk) in H. injection H as <-.
+    rewrite (flt_comparable _ _ _ (fcmp_antisym _ _ _ Hk)), cmp_of_comparison_opp. reflexivity.
+  - intros a b c x y (fa & -> & Na) (fb & -> & Nb) (fc & -> & Nc) H1 H2 Hx Hy.
+    destruct (fcmp_total fa fb Na Nb) as [k1 Hk1]. rewrite (flt_comparable _ _ _ Hk1) in H1. injection H1 as <-.
+    destruct (fcmp_total fb fc Nb Nc) as [k2 Hk2]. rewrite (flt_comparable _ _ _ Hk2) in H2. injection H2 as <-.
+    apply (proj1 (cmp_of_comparison_le k1)) in Hx. apply (proj1 (cmp_of_comparison_le k2)) in Hy.
+    destruct (fcmp_le_trans _ _ _ _ _ Hk1 Hk2 Hx Hy) as (z & Hz & Zle & Zlt).
+    rewrite (flt_comparable _ _ _ Hz). eexists. split; [reflexivity|].
+    split; [apply (proj2 (cmp_of_comparison_le z)); exact Zle|].
+    rewrite !cmp_of_comparison_lt. exact Zlt.
+Qed.
+
 (* (b) across representations.  Exclusions (recorded findings, refuted below):
        integers beyond ±2^53 (the comparison goes through float64(int64)),
        NaN (Go's compareNumbers answers "equal"). *)
@@ -566,10 +589,15 @@ Definition nkey (n : num) : f64 :=
 
 Hypothesis NL : NumLaws L.
 
+Lemma ofZ_small_notnan z : Z.abs z <= two53 -> notnan (xl_of_Z L z).
+Proof.
+  intros Hz. pose proof (nl_ofZ_exact L NL z z Hz Hz) as H. exact (proj1 (fcmp_notnan _ _ _ H)).
+Qed.
+
 Lemma nkey_notnan n : good_num n -> notnan (nkey n).
 Proof.
   unfold good_num, nkey. destruct (nview_of n); intros H; [|exact H|contradiction].
-  apply (nl_ofZ_notnan L NL).
+  apply ofZ_small_notnan; exact H.
 Qed.
 
 Lemma ofZ_small_cmp a b : Z.abs a <= two53 -> Z.abs b <= two53 ->
@@ -587,10 +615,11 @@ Qed.
 
 (* the float the code reads from an integral json.Number is fcmp-equal to float64(int64) *)
 Lemma js_int_float_eq s z :
-  js_int64 L s = Some z -> exists f fl, js_float64 L s = Some (f, fl) /\ fcmp f (xl_of_Z L z) = Some Eq.
+  js_int64 L s = Some z -> Z.abs z <= two53 ->
+  exists f fl, js_float64 L s = Some (f, fl) /\ fcmp f (xl_of_Z L z) = Some Eq.
 Proof.
-  intros H. destruct (nl_js_int_float L NL s z H) as [E|[-> E]]; rewrite E; do 2 eexists; split; try reflexivity.
-  - apply fcmp_refl. apply (nl_ofZ_notnan L NL).
+  intros H Hz. destruct (nl_js_int_float L NL s z H) as [E|[-> E]]; rewrite E; do 2 eexists; split; try reflexivity.
+  - apply fcmp_refl. apply ofZ_small_notnan; exact Hz.
   - rewrite (nl_ofZ_0 L NL). reflexivity.
 Qed.
 
@@ -608,7 +637,7 @@ Proof.
   - reflexivity.
   - reflexivity.
   - destruct (js_int64 L b) as [zb|] eqn:Eb; cbn.
-    + intros Ga Gb Na Nb. destruct (js_int_float_eq b zb Eb) as (f & fl & -> & Hf).
+    + intros Ga Gb Na Nb. destruct (js_int_float_eq b zb Eb Gb) as (f & fl & -> & Hf).
       f_equal. apply compareNumbersF_congr_r; assumption.
     + destruct (js_float64 L b) as [[fb ?]|]; cbn; [reflexivity|contradiction].
   - destruct (js_int64 L a) as [za|]; cbn.
@@ -623,7 +652,7 @@ Proof.
       * destruct (js_float64 L b) as [[fb ?]|]; cbn; [reflexivity|contradiction].
     + destruct (js_float64 L a) as [[fa ?]|]; cbn; [|contradiction].
       destruct (js_int64 L b) as [zb|] eqn:Eb; cbn.
-      * intros Ga Gb Na Nb. destruct (js_int_float_eq b zb Eb) as (f & fl & -> & Hf).
+      * intros Ga Gb Na Nb. destruct (js_int_float_eq b zb Eb Gb) as (f & fl & -> & Hf).
         f_equal. apply compareNumbersF_congr_r; assumption.
       * destruct (js_float64 L b) as [[fb ?]|]; cbn; [reflexivity|contradiction].
 Qed.
@@ -1155,7 +1184,6 @@ Proof.
     exists z. split; [reflexivity|exact Hzz].
 Qed.
 
-Definition lib0 : ExecLib := mk_lib (ctx_fixed 0 0) (fun _ _ _ => false) members_in_order.
 
 (* non-vacuity: the hypotheses of the class theorems are satisfiable *)
 Example class_examples :
@@ -1164,6 +1192,15 @@ Example class_examples :
   wf_dt (mkdt KTimestampTZ 0 0 3600).
 Proof.
   repeat split; try (eexists; reflexivity); try (do 2 eexists; split; reflexivity); cbn; lia.
+Qed.
+
+Definition f_2p53_ex : f64 := S754_finite false 4503599627370496 1.
+Example good_num_examples :
+  good_num lib0 (NInt (-9007199254740992)) /\ good_num lib0 (NFlt f_2p53_ex) /\
+  good_num lib0 (NJs "12") /\ good_num lib0 (NJs "1.5") /\ good_num lib0 (NJs "1e400") /\
+  ~ good_num lib0 (NInt 9007199254740993) /\ ~ good_num lib0 (NFlt S754_nan) /\ ~ good_num lib0 (NJs "abc").
+Proof.
+  unfold good_num, f_2p53_ex, two53. repeat split; try (vm_compute; congruence); vm_compute; intros H; try (apply H; reflexivity); try contradiction.
 Qed.
 
 (* ---- refuted: the full statement is false beyond ±2^53 ---- *)
@@ -1213,6 +1250,7 @@ Print Assumptions class_null.
 Print Assumptions class_bool.
 Print Assumptions class_str.
 Print Assumptions class_int.
+Print Assumptions class_flt.
 Print Assumptions C12_int_by_value.
 Print Assumptions compareNumeric_good.
 Print Assumptions class_num.
